@@ -29,7 +29,7 @@ SERIALS = ["000000P0000000Q1F0C9D153F7B40000", "0" * 32, "ZZZZZZZZZZZZZZZZzzzzzz
 
 
 def bounds(tier):
-    return {"ids": len(IDS), "ports": PORTS, "serials": len(SERIALS), "type_bytes": 256, "hex_case": 2, "versions": [2, 3],
+    return {"ids": len(IDS), "ports": PORTS, "serials": len(SERIALS), "type_bytes": 256, "hex_case": 2, "name_lengths": "5..255", "versions": [2, 3],
             "listen_ports": [6445, 20086], "hosts_per_broadcast": 12}
 
 
@@ -51,6 +51,14 @@ def all_hosts():
                 for lport in (6445, 20086):
                     for same in (True, False):
                         h(idv, port, SERIALS[(i + j) % 3], 0xAC if (i + j) % 4 else 0xA1, j % 2 == 0, same, version, lport)
+    # name lengths up to the one-byte length field's maximum (suffix grows; type field stays at position 1)
+    for n in (5, 6, 11, 31, 32, 33, 34, 48, 64, 100, 128, 200, 254, 255):
+        for version in (2, 3):
+            for tt in (0xAC, 0xB8):
+                suffix = ("Z9_" * 90)[:n - 7]
+                out.append({"id": IDS[(n + tt) % len(IDS)], "port": 6444, "sn": SERIALS[n % 3], "type": tt,
+                            "name": f"net_{tt:02x}_{suffix}"[:n] if n >= 7 else f"n_{tt:02x}_"[:n + 1], "same_ip": True,
+                            "version": version, "lport": 6445})
     for sn in SERIALS:
         for same in (True, False):
             for version in (2, 3):
